@@ -12,7 +12,8 @@ property on the real objects only:
   * in-place form == binary form,
   * operands (every pre-existing object) unchanged by non-in-place operations,
   * result is a new object that shares no array with any pre-existing object,
-  * ReactionItem / slice X write <-> set X read (every object that reads the written cell reads the value),
+  * ReactionItem (from set[i] or from iterating the set) / slice X write <-> set X read, element and whole-array
+    assignment (every object that read the written cell before the operation reads the written value after it),
   * set.copy is independent of the original; reset_chemicals preserves the action on streams of either package.
 
 The Lean model is lean/ThermoVerif/Model/ReactionAlgebra.lean (driver Driver/C17.lean).
@@ -36,14 +37,23 @@ ASSUMPTIONS = [
     'Python object identity is modelled by ids into an explicit store (arrays, X arrays, objects)',
     'float arithmetic is compared exactly while every observed value has <= 26 significant bits (dyadic inputs), '
     'else with rtol 1e-9 / atol 1e-12',
-    'iteration order of set(self._reactant_index) in ParallelReaction.reduce is an external parameter recorded by the adapter',
+    'iteration order of set(self._reactant_index) in ParallelReaction.reduce is an external parameter: the key order of the '
+    'returned set (or, when reduce raises, of set(self._reactant_index)) is handed to the model, which checks it covers the keys once',
     'three property packages (home: 8 chemicals; two alternatives, one lacking two chemicals and having an extra one); '
     'reset_chemicals of items/sets, stepped or negative slices, X_net, product_yield are not modelled',
     'the agreement laws are evaluated for operands normalised on their reactant (true of everything the constructor '
     'and the operations return); a left operand with empty stoichiometry and X != 0 (Reaction(\'\', ...)) is outside them',
     'products of obj(feed) are observed through __call__ with the default feasibility check; when it refuses a negative '
     'flow, as feed + conversion(feed)',
-    'the model is written to the repaired behaviour of the defects in fixes_proposed/C17-1..6',
+    'a + b with X_a + X_b = 0 and a - b with X_a = X_b (different stoichiometries) raise ZeroDivisionError in code and model: the '
+    'net reaction has no representation normalised on the reactant; the agreement theorems and laws exclude it, the oracle only '
+    'checks that a ZeroDivisionError occurs where such a sum (or a divisor) really vanishes',
+    'whether __call__ refuses a result (InfeasibleRegion, clamping of negligible negatives) is C05 matter; C17 observes products '
+    'through __call__ and, where it refuses, through feed + conversion(feed), and on explicit apply lines checks that the two '
+    'routes agree and that __call__ refuses exactly when a flow is negative beyond rounding',
+    'the dump compares the identity of the top-level stoichiometry array of each object; rows/dicts inside a SparseArray are '
+    'covered by the oracle\'s sharing tokens only',
+    'the model is written to the repaired behaviour of the defects fixed in /repo (C17-1..6, 8900795)',
 ]
 TRUSTED = ['Lean 4.33 kernel', 'correspondence harness harness/props/c17.py + Driver/C17.lean',
            'generator reach (see histogram)', 'field-vs-float gap (theorems over ordered fields)']
@@ -152,12 +162,18 @@ def typed(t):
 # --------------------------------------------------------------------------
 
 class BadCase(Exception):
+    """the case itself is malformed (dangling reference, wrong feed length): not a verdict"""
+    pass
+
+
+class Unexpected(Exception):
+    """the real code returned something the adapter cannot even represent: an oracle failure, not a crash"""
     pass
 
 
 LEGIT_ERRORS = [
     (ValueError, 'must be the same'), (ValueError, 'must pass reactant'), (ValueError, 'basis must be'),
-    (ValueError, 'all reactions must'), (ZeroDivisionError, ''), (FloatingPointError, 'divide by zero'), (RuntimeError, 'does not participate'),
+    (ValueError, 'all reactions must'), (ValueError, 'could not broadcast'), (ZeroDivisionError, ''), (FloatingPointError, 'divide by zero'), (RuntimeError, 'does not participate'),
     (TypeError, 'cannot change basis'), (TypeError, 'cannot reduce'), (IndexError, ''), ('UndefinedChemicalAlias', ''),
 ]
 
@@ -234,6 +250,7 @@ class Universe:
     def __init__(self):
         self.objs = []
         self.parent = {}          # object index of an item -> (object index of its set, row)
+        self.apply_issues = []    # (signature, what) found while applying objects with `check`
         self.ready = False
 
     # -- references -----------------------------------------------------------
@@ -323,9 +340,11 @@ class Universe:
         return ' | '.join(parts), allshort
 
     # -- applying an object to a feed -------------------------------------------------
-    def apply(self, o, feed, mode):
+    def apply(self, o, feed, mode, check=False):
         """products of `o(feed)`: through `__call__`; when the feasibility check of `__call__` refuses the
-        result (a flow below zero), as feed + conversion(feed), which is the same quantity without the check"""
+        result (a flow below zero), as feed + conversion(feed), which is the same quantity without the check.
+        With `check` the two routes are compared: `__call__` must refuse exactly when the unchecked result has
+        negative flows beyond rounding, and otherwise return it with the negligible negatives set to zero."""
         import numpy as np
         ph = nph(o)
         rows = ph or 1
@@ -345,16 +364,19 @@ class Universe:
             else:
                 s = tmo.Stream(None, flow=fresh(), thermo=th)
             return s
+        called = None
         try:
             if mode == 'arr':
                 arr = fresh()
                 o(arr)
-                return [float(x) for x in arr.flatten()]
-            s = stream()
-            o(s)
-            return [float(x) for x in s.imol.data.to_array().flatten()]
+                called = [float(x) for x in arr.flatten()]
+            else:
+                s = stream()
+                o(s)
+                called = [float(x) for x in s.imol.data.to_array().flatten()]
         except tmo.exceptions.InfeasibleRegion:
             pass
+        if called is not None and not check: return called
         total = fresh()
         ser = isinstance(o, tmo.SeriesReaction)
         def at(arr2):
@@ -368,7 +390,24 @@ class Universe:
             conv = dense(it.conversion(at(total) if ser else (fresh() if mode == 'arr' else stream())))
             if mode != 'arr' and it._basis == 'wt': conv = conv / mw_o
             total = total + conv.reshape(total.shape)
-        return [float(x) for x in total.flatten()]
+        unchecked = [float(x) for x in total.flatten()]
+        if check:
+            negsum = sum(x for x in unchecked if x < 0)
+            scale = max([1.0] + [abs(x) for x in unchecked])
+            if called is None and negsum > -1e-15:
+                self.apply_issues.append(('apply:refused-a-feasible-result',
+                    'calling the object raised InfeasibleRegion although no flow of feed + conversion is negative (sum of negatives %r)' % negsum))
+            if called is not None:
+                if negsum < -1e-9 * scale:
+                    self.apply_issues.append(('apply:negative-flow-not-refused',
+                        'calling the object returned although feed + conversion has negative flows (sum %r)' % negsum))
+                else:
+                    want = [max(x, 0.0) if x > -1e-9 * scale else x for x in unchecked]
+                    if not vec_close(called, want, feed):
+                        q = max(range(len(called)), key=lambda j: abs(called[j] - want[j]))
+                        self.apply_issues.append(('apply:call-differs-from-conversion',
+                            'calling the object gives %r for entry %d where feed + conversion gives %r' % (called[q], q, want[q])))
+        return called if called is not None else unchecked
 
     def apply_pkg(self, o, p, feed):
         """molar flows of a stream over package `p` after `o(stream)` (o: a plain reaction over any package)"""
@@ -480,12 +519,25 @@ class Universe:
         if op == 'slice':
             o = self.rset(t[1])
             r = o[int(t[2]):int(t[3])]
-            if not is_set(r): raise BadCase('slice did not give a set')
+            if not is_set(r): raise Unexpected('set[i:j] returned a %s, not a reaction set' % type(r).__name__)
             return 'ret', r, line
         if op == 'item':
             s = self.rset(t[1]); i = int(t[2])
             if i >= len(s._X): raise IndexError('item index')
             return 'ret', s[i], line
+        if op == 'iteritem':
+            s = self.rset(t[1]); i = int(t[2])
+            if i >= len(s._X): raise IndexError('item index')
+            its = list(s)                      # ReactionSet.__iter__
+            if len(its) != len(s._X): raise Unexpected('iterating the set gave %d items for %d reactions' % (len(its), len(s._X)))
+            return 'ret', its[i], line
+        if op == 'setsxall':
+            s = self.rset(t[1])
+            vals = [typed(x) for x in t[2].split(',')]
+            import numpy as np
+            how_ = zlib.crc32(line.encode()) % 3
+            s.X = vals if how_ == 0 else (np.array([float(v) for v in vals]) if how_ == 1 else tuple(vals))
+            return 'ret', s, line
         if op == 'setsx':
             s = self.rset(t[1]); i = int(t[2])
             if i >= len(s._X): raise IndexError('item index')
@@ -499,7 +551,8 @@ class Universe:
             self._pending_model_line = mline
             r = s.reduce()
             got = [ridx_of(k, nph(r), r) for k in r._reactant_index]
-            if got != order: raise BadCase('recorded reduce order %r differs from observed %r' % (order, got))
+            # the key order actually used is the external parameter handed to the model
+            mline = '%s %s %s' % (t[0], t[1], ','.join(map(str, got)))
             return 'ret', r, mline
         if op == 'reset':
             o = self.rxn(t[1])
@@ -513,7 +566,7 @@ class Universe:
         if op in ('apply', 'applys'):
             o = self.ref(t[1])
             feed = [num(x) for x in t[2].split(',')]
-            out = self.apply(o, feed, 'arr' if op == 'apply' else 'str')
+            out = self.apply(o, feed, 'arr' if op == 'apply' else 'str', check=True)
             return 'out', [out], line
         if op == 'subcancel':
             a, b = self.rxn(t[1]), self.rxn(t[2])
@@ -524,8 +577,8 @@ class Universe:
 
 
 INPLACE = {'iadd': 'add', 'isub': 'sub', 'imul': 'mul', 'idiv': 'div'}
-FRESH_RESULT = ('copy', 'add', 'radd', 'sub', 'mul', 'rmul', 'div', 'neg', 'back', 'reduce', 'setcopy')
-NON_INPLACE = FRESH_RESULT + ('new', 'empty', 'mkset', 'mkseries', 'slice', 'item', 'apply', 'applys', 'applys2', 'subcancel')
+FRESH_RESULT = ('copy', 'add', 'radd', 'sub', 'mul', 'rmul', 'div', 'neg', 'back', 'reduce', 'setcopy', 'mkset', 'mkseries')
+NON_INPLACE = FRESH_RESULT + ('new', 'empty', 'slice', 'item', 'iteritem', 'apply', 'applys', 'applys2', 'subcancel')
 
 
 def fields_diff(f, g, exact=True):
@@ -592,6 +645,32 @@ class Oracle:
                 raise
             except Exception:
                 self.reset_probe = None
+        # who reads the conversion cell(s) this operation writes — decided BEFORE the operation, so that a setter
+        # which rebinds the array instead of writing it (and so detaches earlier items / slices) is seen
+        self.readers = None
+        if self.op in ('setx', 'imul', 'idiv', 'iadd', 'isub', 'setsx', 'setsxall'):
+            try:
+                w = U.ref(self.t[1])
+                cells = []
+                if self.op in ('setsx', 'setsxall'):
+                    if is_set(w):
+                        idx = range(len(w._X)) if self.op == 'setsxall' else ([int(self.t[2])] if int(self.t[2]) < len(w._X) else [])
+                        cells = [('x', id(xbase(w._X)), xoff(w._X) + i) for i in idx]
+                elif is_item(w):
+                    cells = [('x', id(xbase(w._X)), xoff(w._X) + int(w._index))]
+                self.readers = []
+                for ci, c in enumerate(cells):
+                    for k2, o2 in enumerate(U.objs):
+                        if is_set(o2):
+                            b2, off2 = id(xbase(o2._X)), xoff(o2._X)
+                            if b2 == c[1] and off2 <= c[2] < off2 + len(o2._X):
+                                self.readers.append((ci, k2, 'set', c[2] - off2))
+                        elif is_item(o2) and ('x', id(xbase(o2._X)), xoff(o2._X) + int(o2._index)) == c:
+                            self.readers.append((ci, k2, 'item', None))
+            except BadCase:
+                raise
+            except Exception:
+                self.readers = None
         if self.op in INPLACE:
             # the binary form on the same operands, computed first (it must not change them either)
             try:
@@ -653,6 +732,25 @@ class Oracle:
         if not legit_error(e):
             self.add('raises:%s@%s' % (type(e).__name__, raised_in(e)),
                      '`%s` raised %s: %s' % (self.line, type(e).__name__, str(e)[:120]))
+        if isinstance(e, (ZeroDivisionError, FloatingPointError)):
+            # a division by zero is legitimate only where the combined conversion (or the divisor) really vanishes
+            try:
+                t = self.t
+                cause = True
+                if op in ('add', 'radd', 'iadd', 'sub', 'isub') and t[2].startswith('r'):
+                    xa, xb = float(self.U.rxn(t[1]).X), float(self.U.rxn(t[2]).X)
+                    cause = (xa + xb == 0.0) if op in ('add', 'radd', 'iadd') else (xa - xb == 0.0)
+                elif op in ('div', 'idiv'):
+                    cause = plain(t[2]) == 0.0
+                elif op in ('mul', 'rmul', 'imul', 'neg', 'copy', 'back', 'setx', 'item', 'iteritem', 'slice', 'mkset', 'mkseries'):
+                    cause = False
+                if not cause:
+                    self.add('%s:zero-division-without-cause' % op, '`%s` raised %s although no conversion sum or divisor is zero'
+                             % (self.line, type(e).__name__))
+            except BadCase:
+                raise
+            except Exception:
+                pass
         d = self.diff_existing(range(self.n_before))
         if d: self.add('%s:operand-mutated-on-error:%s' % (op, d[1]),
                        '`%s` raised but changed %s of r%d' % (self.line, d[1], d[0]))
@@ -691,7 +789,7 @@ class Oracle:
                         self.add('%s:result-shares-array' % op,
                                  'the result of `%s` shares a stoichiometry or X array with r%d' % (self.line, k))
                         break
-            if op not in ('reduce', 'setcopy') and (is_item(res) or not is_rxn(res)) and not any(o is res for o in U.objs[:self.n_before]):
+            if op not in ('reduce', 'setcopy', 'mkset', 'mkseries') and (is_item(res) or not is_rxn(res)) and not any(o is res for o in U.objs[:self.n_before]):
                 self.add('%s:result-not-a-reaction' % op, 'the result of `%s` is a %s' % (self.line, type(res).__name__))
         # ---- hypothesis monitor: what the operations return stays normalised on its reactant (or empty) ----
         if kind == 'ret' and is_rxn(res) and op not in ('item', 'setbasis', 'setx', 'empty'):  # (sets are not Reaction instances)
@@ -710,37 +808,34 @@ class Oracle:
                 if d: self.add('%s:differs-from-binary' % op,
                                'after `%s` the %s of the left operand differs from that of the binary form'
                                % (self.line, d))
-        # ---- item <-> set (and slices): everything that reads the written cell reads the written value --------
-        if op in ('setx', 'imul', 'idiv', 'iadd', 'isub', 'setsx'):
+        # ---- item <-> set (and slices): everything that read the written cell(s) reads the written value --------
+        if self.readers:
+            w = U.objs[int(t[1][1:])]
             if op == 'setsx':
-                o = U.objs[int(t[1][1:])]
-                cellk = ('x', id(xbase(o._X)), xoff(o._X) + int(t[2]))
-                val = float(o._X[int(t[2])])
-                if not (val == plain(t[3])):
-                    self.add('setsx:write-lost', 'after `%s` the set reads %r' % (self.line, val))
-            elif is_item(res):
-                cellk = ('x', id(xbase(res._X)), xoff(res._X) + int(res._index))
-                val = float(res.X)
+                vals = [plain(t[3])]
+            elif op == 'setsxall':
+                given = [plain(x) for x in t[2].split(',')]
+                n = len(w._X)
+                vals = given if len(given) == n else given * n
             else:
-                cellk = None
-            if cellk is not None:
-                for k2, o2 in enumerate(U.objs):
-                    if is_set(o2):
-                        b2, off2 = id(xbase(o2._X)), xoff(o2._X)
-                        if b2 == cellk[1] and off2 <= cellk[2] < off2 + len(o2._X):
-                            got = float(o2._X[cellk[2] - off2])
-                            if not (got == val):
-                                self.add('%s:%s' % (op, 'set-write-not-seen-by-set' if op == 'setsx' else 'item-write-not-seen-by-set'),
-                                         'after `%s` the set r%d reads %r where the writer reads %r' % (self.line, k2, got, val))
-                    elif is_item(o2) and ('x', id(xbase(o2._X)), xoff(o2._X) + int(o2._index)) == cellk:
-                        if not (float(o2.X) == val):
-                            self.add('%s:%s' % (op, 'set-write-not-seen-by-item' if op == 'setsx' else 'item-write-not-seen-by-item'),
-                                     'after `%s` the item r%d reads X=%r where the writer reads %r' % (self.line, k2, float(o2.X), val))
+                vals = [float(w.X)]
+            for ci, k2, kind2, rel in self.readers:
+                if ci >= len(vals): continue
+                o2 = U.objs[k2]
+                try:
+                    got = float(o2.X) if kind2 == 'item' else float(o2._X[rel])
+                except Exception:
+                    got = None
+                if got is None or not (got == vals[ci]):
+                    writer = 'set' if op in ('setsx', 'setsxall') else 'item'
+                    self.add('%s:%s-write-not-seen-by-%s' % (op, writer, kind2),
+                             'after `%s` the %s r%d reads %r where %r was written'
+                             % (self.line, kind2, k2, got, vals[ci]))
         # ---- an item / a slice is created sharing the set's conversion cells and row arrays ------------------
-        if op in ('item', 'slice') and kind == 'ret':
+        if op in ('item', 'iteritem', 'slice') and kind == 'ret':
             import numpy as np
             S = U.objs[int(t[1][1:])]
-            if op == 'item':
+            if op in ('item', 'iteritem'):
                 i = int(t[2])
                 ok = (np.shares_memory(res._X, S._X) and res._stoichiometry is S._stoichiometry[i]
                       and xoff(res._X) + int(res._index) == xoff(S._X) + i and xbase(res._X) is xbase(S._X))
@@ -895,7 +990,7 @@ def run_ops(ops):
                 if t[0] in NON_INPLACE or k is None:
                     # the expression produced a value: it gets the next name (even if it is an old object)
                     U.objs.append(res)
-                    if t[0] == 'item': U.parent[len(U.objs) - 1] = (int(t[1][1:]), int(t[2]))
+                    if t[0] in ('item', 'iteritem'): U.parent[len(U.objs) - 1] = (int(t[1][1:]), int(t[2]))
                     status = 'ret=r%d' % (k if k is not None and k < orc.n_before else len(U.objs) - 1)
                 else:
                     status = 'ret=r%d' % k
@@ -908,6 +1003,9 @@ def run_ops(ops):
                     if not all(short(x) for x in v): exact = False
             orc.after_ok(kind, res)
         failures.extend(orc.fail)
+        for sig, what in U.apply_issues:
+            failures.append({'signature': sig, 'op_index': i, 'what': 'in `%s`: %s' % (line[:60], what)})
+        U.apply_issues = []
         d, allshort = U.dump()
         if not allshort: exact = False
         outs.append(('E|' if exact else 'T|') + status + ' | ' + d)
@@ -1072,9 +1170,9 @@ def gen_op(rng, U, friendly):
     kind = rng.choices(
         ['add', 'sub', 'iadd', 'isub', 'addz', 'mul', 'div', 'neg', 'imul', 'idiv', 'copy', 'back', 'setbasis',
          'setx', 'mkset', 'item', 'setsx', 'reduce', 'apply', 'applys', 'subcancel', 'setcopy', 'slice', 'reset',
-         'applys2'],
+         'applys2', 'iteritem', 'setsxall'],
         [14, 12, 8, 8, 5, 7, 6, 4, 4, 4, 6, 7, 4,
-         4, 7, 10, 6, 7, 10, 4, 5, 6, 6, 6, 5])[0]
+         4, 7, 8, 6, 7, 10, 4, 5, 6, 6, 6, 5, 6, 6])[0]
     a = rng.choice(rx)
     oa = U.objs[a]
     def partner():
@@ -1122,7 +1220,7 @@ def gen_op(rng, U, friendly):
         ms = [a] + [k for k in good if k != a][:rng.randrange(1, 4)]
         if rng.random() < 0.04: ms.append(rng.choice(rx))
         return ('mkseries ' if rng.random() < 0.3 else 'mkset ') + ','.join('r%d' % k for k in ms)
-    if kind in ('item', 'setsx', 'reduce', 'setcopy', 'slice'):
+    if kind in ('item', 'iteritem', 'setsx', 'setsxall', 'reduce', 'setcopy', 'slice'):
         if not sets: return None
         s = rng.choice(sets); n = len(U.objs[s]._X)
         if kind == 'reduce':
@@ -1139,7 +1237,10 @@ def gen_op(rng, U, friendly):
             return 'slice r%d %d %d' % (s, i, j)
         if n == 0: return None
         i = rng.randrange(n) if rng.random() < 0.97 else n
-        if kind == 'item': return 'item r%d %d' % (s, i)
+        if kind == 'setsxall':
+            m = n if rng.random() < 0.85 else (1 if rng.random() < 0.7 else n + 1)
+            return 'setsxall r%d %s' % (s, ','.join(how(rng, gen_X(rng, friendly)) for _ in range(m)))
+        if kind in ('item', 'iteritem'): return '%s r%d %d' % (kind, s, i)
         return 'setsx r%d %d %s' % (s, i, how(rng, gen_X(rng, friendly)))
     if kind in ('apply', 'applys'):
         tgt = rng.choice(rx + sets)
@@ -1210,11 +1311,11 @@ def gen_case(rng, length):
             t0 = line.split(' ')[0]
             if t0 in NON_INPLACE or U.index_of(res) is None:
                 U.objs.append(res)
-                if t0 == 'item': U.parent[len(U.objs) - 1] = (int(line.split(' ')[1][1:]), int(line.split(' ')[2]))
+                if t0 in ('item', 'iteritem'): U.parent[len(U.objs) - 1] = (int(line.split(' ')[1][1:]), int(line.split(' ')[2]))
         return True
     for l in prelude(): do(l)
     friendly = rng.random() < 0.45
-    ph = rng.choice([0, 0, 0, 3, 3])
+    ph = rng.choice([0, 0, 0, 0, 3, 3, 3, 2])
     c = rng.randrange(N)
     mixed = rng.random() < 0.3
     base = rng.choice(['m', 'm', 'm', 'w'])
@@ -1223,7 +1324,7 @@ def gen_case(rng, length):
         do(gen_new(rng, ph, c, friendly, b, flip=rng.random() < 0.08))
     r = rng.random()
     if r < 0.07: do(gen_new(rng, ph, (c + 1 + rng.randrange(N - 1)) % N, friendly, base))      # another reactant
-    elif r < 0.12: do(gen_new(rng, 2 if ph else 3, c, friendly, base))                         # other phases
+    elif r < 0.12: do(gen_new(rng, 2 if ph in (0, 3) else 3, c, friendly, base))                # other phases
     elif r < 0.16: do('empty %s %d %s' % (base, c, how(rng, gen_X(rng, friendly))))               # Reaction('')
     n = 0
     tries = 0
